@@ -157,11 +157,11 @@ func lockCtxScenarios() []hx.Scenario {
 	for _, name := range combos(seqs(alpha, 2), 3, canonPlain, func(th [][]string) bool { return totalOps(th) <= 4 }) {
 		add(name, true, 2)
 	}
-	// 4 callers x 1 section (thorough): bound 2 with at most one racing
-	// canceller, bound 1 beyond (5-6 threads: ~8*10^5 schedules each at bound 2)
+	// 4 callers x 1 section (thorough): bound 2 without a racing canceller,
+	// bound 1 with one (5 threads: 3..8*10^5 schedules each at bound 2)
 	for _, name := range combos(seqs(alpha, 1), 4, canonPlain, nil) {
 		b := 2
-		if racing(name) > 1 {
+		if racing(name) > 0 {
 			b = 1
 		}
 		add(name, true, b)
